@@ -109,7 +109,8 @@ def main(ctx):
         if isinstance(sh_[0], str):
             ctx.violation("%s: %s" % (sh_[0], sh_[1][1][-500:]), "command: %s\n" % sh_[2], found_input=False)
             continue
-        impl, model, path = sh_
+        impl, models, path = sh_
+        model = models[0]
         mm = {c.id: c for c in model}
         for c in impl:
             n_cases += 1
